@@ -215,6 +215,10 @@ struct Stats {
     trees_without_split_importance_undefined: u64,
     max_decrease_err: f64,
     distinct_class_counts: [u64; 7],
+    violating_evals: u64,
+    violations_not_stored: u64,
+    child_processes: u64,
+    child_aborts: u64,
 }
 
 impl Stats {
@@ -234,6 +238,10 @@ impl Stats {
         for i in 0..7 {
             self.distinct_class_counts[i] += o.distinct_class_counts[i];
         }
+        self.violating_evals += o.violating_evals;
+        self.violations_not_stored += o.violations_not_stored;
+        self.child_processes += o.child_processes;
+        self.child_aborts += o.child_aborts;
     }
 }
 
@@ -815,6 +823,9 @@ fn run_typed<F: Float, L: Label + Default + std::fmt::Debug>(case: &Case, names:
         }
         st.distinct_class_counts[distinct.len().min(6)] += 1;
         check_one::<F, L>(case, ci, cfg, &ds, &recs, &data, &mut viols, &mut st);
+        if !viols.is_empty() {
+            st.violating_evals += 1;
+        }
         sink(Event::Done(ci, viols, st));
     }
 }
@@ -847,12 +858,21 @@ fn thread_seed(case: &Case, start: usize) -> u64 {
     case.hash_seed.wrapping_add((start as u64) << 32)
 }
 
-fn attach(case: &Case, raw: Vec<RawViol>, out: &mut Vec<Violation>) {
+/// At most two violations per signature and case are turned into (bulky, replayable) artefacts; the
+/// others - the same failure under further configurations of the same dataset - are only counted.
+fn attach(case: &Case, raw: Vec<RawViol>, out: &mut Vec<Violation>, st: &mut Stats) {
     if raw.is_empty() {
         return;
     }
     let base = serde_json::to_value(case).unwrap();
+    let mut per_sig: std::collections::BTreeMap<String, u32> = Default::default();
     for r in raw {
+        let k = per_sig.entry(r.sig.clone()).or_default();
+        *k += 1;
+        if *k > 2 {
+            st.violations_not_stored += 1;
+            continue;
+        }
         let mut v = base.clone();
         v.as_object_mut().unwrap().insert("at".into(), r.at);
         out.push(Violation::new(r.sig, r.what, v));
@@ -881,6 +901,18 @@ fn has_midpoint_rounding_up(case: &Case) -> bool {
 fn child_main() -> ! {
     use std::io::{Read, Write};
     std::panic::set_hook(Box::new(|_| {}));
+    // an aborting child must not leave core files behind
+    #[repr(C)]
+    struct RLimit {
+        cur: u64,
+        max: u64,
+    }
+    extern "C" {
+        fn setrlimit(resource: i32, rlim: *const RLimit) -> i32;
+    }
+    unsafe {
+        setrlimit(4 /* RLIMIT_CORE */, &RLimit { cur: 0, max: 0 });
+    }
     let mut txt = String::new();
     std::io::stdin().read_to_string(&mut txt).expect("stdin");
     let v: Value = serde_json::from_str(&txt).expect("child input");
@@ -920,6 +952,7 @@ fn run_isolated(case: &Case, viols: &mut Vec<Violation>) -> Stats {
             .stderr(Stdio::null())
             .spawn()
             .expect("spawn child");
+        st.child_processes += 1;
         {
             let mut si = child.stdin.take().unwrap();
             si.write_all(json!({"case": case, "start": start}).to_string().as_bytes()).expect("child stdin");
@@ -954,6 +987,8 @@ fn run_isolated(case: &Case, viols: &mut Vec<Violation>) -> Stats {
                 let narrow = cfg.max_depth.is_none() && has_midpoint_rounding_up(case);
                 st.evals += 1;
                 st.nontrivial += 1;
+                st.violating_evals += 1;
+                st.child_aborts += 1;
                 raw.push(RawViol {
                     sig: if narrow { "fit.unbounded_recursion.threshold_on_upper_data_value".into() } else { "fit.process_abort".into() },
                     what: format!(
@@ -973,7 +1008,7 @@ fn run_isolated(case: &Case, viols: &mut Vec<Violation>) -> Stats {
             }
         }
     }
-    attach(case, raw, viols);
+    attach(case, raw, viols, &mut st);
     st
 }
 
@@ -983,7 +1018,14 @@ fn run_case(case: &Case, viols: &mut Vec<Violation>) -> Stats {
     if case.isolate {
         return run_isolated(case, viols);
     }
-    let (st, raw) = on_fresh_thread(thread_seed(case, 0), || {
+    let runner = |seed: u64, f: &mut (dyn FnMut() -> (Stats, Vec<RawViol>) + Send)| -> (Stats, Vec<RawViol>) {
+        if std::env::var("C14_EXPERIMENT_NO_THREAD").is_ok() {
+            f()
+        } else {
+            on_fresh_thread(seed, f)
+        }
+    };
+    let (st, raw) = runner(thread_seed(case, 0), &mut || {
         let mut st = Stats::default();
         let mut raw = Vec::new();
         let mut sink = |e: Event| {
@@ -995,7 +1037,8 @@ fn run_case(case: &Case, viols: &mut Vec<Violation>) -> Stats {
         run_configs(case, 0, &mut sink);
         (st, raw)
     });
-    attach(case, raw, viols);
+    let mut st = st;
+    attach(case, raw, viols, &mut st);
     st
 }
 
@@ -1067,11 +1110,14 @@ fn enumerate_cases(ctx: &Ctx) -> Vec<Lite> {
         let sets = datasets(3, n, 6);
         // quick: the largest n runs unweighted on the full grid and weighted on the small grid
         let mut vars = vec![v("f64", "usize", 0, 0, 0)];
-        if n < n_a || ctx.thorough() {
+        if n < n_a {
             vars.push(v("f64", "usize", 1, 0, 0));
             vars.push(v("f64", "usize", 2, 0, 0));
         } else {
             vars.push(v("f64", "usize", 1, 1, 0));
+            if ctx.thorough() {
+                vars.push(v("f64", "usize", 2, 1, 0));
+            }
         }
         if n < n_a {
             vars.push(v("f64", "string", 0, 0, 0));
@@ -1086,12 +1132,17 @@ fn enumerate_cases(ctx: &Ctx) -> Vec<Lite> {
         }
         push_family(&mut out, "1f_lattice3", false, &alpha_a, &sets, &vars);
     }
+    if ctx.quick() {
+        // quick only (thorough has all labelings of 6 rows above): 6 rows with 5 or 6 distinct classes
+        let sets: Vec<_> = datasets(3, 6, 6).into_iter().filter(|(_, y)| y.iter().max().map_or(0, |m| *m as usize + 1) >= 5).collect();
+        push_family(&mut out, "1f_lattice3_n6_5to6_classes", false, &alpha_a, &sets, &[v("f64", "usize", 0, 1, 0)]);
+    }
     // A4: one feature over {0,1,2,3} (room for three nested splits)
     let alpha_a4 = pts(1, 4);
     for n in 1..=ctx.pick(4, 5) {
         let sets = datasets(4, n, 6);
         let mut vars = vec![v("f64", "usize", 0, 0, 0)];
-        if ctx.thorough() {
+        if ctx.thorough() && n <= 4 {
             vars.push(v("f32", "string", 1, 0, 0));
         }
         push_family(&mut out, "1f_lattice4", false, &alpha_a4, &sets, &vars);
@@ -1100,7 +1151,8 @@ fn enumerate_cases(ctx: &Ctx) -> Vec<Lite> {
     let alpha_b = pts(2, 2);
     for n in 1..=ctx.pick(4, 5) {
         let sets = datasets(4, n, 6);
-        let mut vars = vec![v("f64", "usize", 0, 0, 0), v("f64", "usize", 1, 0, 0)];
+        let mut vars = vec![v("f64", "usize", 0, 0, 0)];
+        vars.push(v("f64", "usize", 1, if n <= 4 { 0 } else { 1 }, 0));
         if n <= 4 && (n <= 3 || ctx.thorough()) {
             vars.push(v("f32", "string", 2, 0, 0));
         }
@@ -1132,7 +1184,7 @@ fn enumerate_cases(ctx: &Ctx) -> Vec<Lite> {
         for n in 2..=ctx.pick(3, 4) {
             let sets = datasets(4, n, 3);
             let mut vars = vec![v(fl, "usize", 0, 1, 0)];
-            if n <= 2 || ctx.thorough() {
+            if n <= 2 || (ctx.thorough() && n <= 3) {
                 vars.push(v(fl, "string", 1, 1, 0));
             }
             push_family(&mut out, fam, true, &alpha, &sets, &vars);
@@ -1143,7 +1195,7 @@ fn enumerate_cases(ctx: &Ctx) -> Vec<Lite> {
     for n in 2..=ctx.pick(4, 5) {
         let sets = datasets(5, n, 3);
         let mut vars = vec![v("f64", "usize", 0, 1, 0)];
-        if n <= 3 || ctx.thorough() {
+        if n <= 3 || (ctx.thorough() && n <= 4) {
             vars.push(v("f32", "usize", 1, 1, 0));
         }
         push_family(&mut out, "near_equal_1e-5", false, &alpha_e, &sets, &vars);
@@ -1164,7 +1216,7 @@ fn main() {
     ctx.set_rule(
         "case = (dataset, float type, label type, sample weights, hash seed) fitted under every configuration of a grid; \
          datasets: ALL value sequences of n rows over the family's alphabet x ALL labelings up to renaming of the classes (restricted growth strings, <= 6 classes; \
-         includes duplicates with conflicting labels, constant features, single-class sets): 1 feature over {0,1,2} (n <= 5 quick / 6 thorough), 1 feature over {0,1,2,3} (n <= 4 / 5), \
+         includes duplicates with conflicting labels, constant features, single-class sets): 1 feature over {0,1,2} (n <= 5 quick / 6 thorough; quick adds n = 6 with >= 5 classes on the small grid), 1 feature over {0,1,2,3} (n <= 4 / 5), \
          2 features over {0,1}^2 (n <= 4 / 5), 2 features over {0,1,2}^2 (n <= 3 / 4), adjacency families = 4 consecutive floats at 2^24 and 256 (f32), 2^53 and 2^40 (f64) (n <= 3 / 4, <= 3 classes; run in child processes because fit can overflow the stack), \
          near-equal family {0, 8e-6, 1.6e-5, 2.6e-5, 1} (n <= 4 / 5); label types usize / bool / String; weights none / 1,2,1,2.. / all 0.5; \
          full grid = {gini, entropy} x max_depth {None,0,1,2} x min_weight_split {1,2,3} x min_weight_leaf {1,2} ({0.5,1} with weights 0.5) x min_impurity_decrease {1e-5,0.1,0.3} (144), \
@@ -1225,6 +1277,10 @@ fn main() {
     ctx.extra("split_nodes_with_weight_below_min_weight_split_but_row_count_ok", json!(t.split_nodes_weight_below_min_weight_split_but_count_ok));
     ctx.extra("trees_without_split_importance_not_demanded", json!(t.trees_without_split_importance_undefined));
     ctx.extra("max_abs_error_of_reported_impurity_decrease", json!(t.max_decrease_err));
+    ctx.extra("evaluations_with_a_violation", json!(t.violating_evals));
+    ctx.extra("violations_counted_but_not_stored_beyond_2_per_signature_and_case", json!(t.violations_not_stored));
+    ctx.extra("child_processes_run_for_isolated_cases", json!(t.child_processes));
+    ctx.extra("child_processes_killed_by_stack_overflow", json!(t.child_aborts));
     ctx.extra("fits_by_number_of_distinct_classes", json!({"1": t.distinct_class_counts[1], "2": t.distinct_class_counts[2], "3": t.distinct_class_counts[3], "4": t.distinct_class_counts[4], "5": t.distinct_class_counts[5], "6": t.distinct_class_counts[6]}));
     ctx.finish(&replay_value);
 }
